@@ -267,3 +267,33 @@ Inductive shape := SCountBy | SSum | SOther.
 Definition vectorized (sh : shape) (par nobj nvec : N) (filt sliced : bool) : bool :=
   (1 <? par)%N && (0 <? nobj)%N && (nvec =? nobj)%N && negb filt && negb sliced &&
   match sh with SCountBy | SSum => true | SOther => false end.
+
+(* ---------------------------------------------------------------- Head *)
+
+(* runtime/vam/op/head.go.  One Head instance serves every scope of
+   `over ... => ( head N )`: a scope is a sequence of batches (their lengths)
+   ended by EOS.  [head_scope limit count batches] is what the successive
+   Pull(false) calls return for one scope (lengths of the emitted vectors) and
+   the count left behind:
+   - count >= limit: return EOS and reset (the parent is not pulled);
+   - parent EOS: reset and return EOS;
+   - a batch shorter than what remains: emit it all, count += n;
+   - otherwise: send done upstream, emit the remaining values, count = limit;
+     the next Pull then takes the first case. *)
+Fixpoint head_scope (limit count : nat) (batches : list nat) : list nat * nat :=
+  if (limit <=? count)%nat then ([], O)
+  else match batches with
+       | [] => ([], O)
+       | n :: r =>
+         if (n <? limit - count)%nat
+         then let '(o, c) := head_scope limit (count + n) r in (n :: o, c)
+         else ([(limit - count)%nat], O)
+       end.
+
+Fixpoint head_scopes (limit count : nat) (scopes : list (list nat)) : list (list nat) :=
+  match scopes with
+  | [] => []
+  | s :: r => let '(o, c) := head_scope limit count s in o :: head_scopes limit c r
+  end.
+
+Definition nsum (l : list nat) : nat := fold_right Nat.add O l.
